@@ -61,6 +61,9 @@ class Contract:
         self.let_d = []
         self.native_skip = False
         self.decreases_expr = None
+        self.interface_flag = False
+        self.keeps_epoch = False    # modifies nothing a matcher / message text depends on (checked when the body is verified)
+        self.effects = []           # ghost code run at the call site after the havoc (assumed effect of trusted contracts)
         self.setup = None           # native: callable(args)->(callable, args) to build receiver objects
 
     # fluent API
@@ -94,6 +97,15 @@ class Contract:
         (self.ghost_entry if at == 'entry' else self.ghost_exit).append(code); return self
     def prop(self, *ids):
         self.props.update(ids); return self
+    def interface(self):
+        """this contract is the interface contract of a method: calls through the base type use it without case split"""
+        self.interface_flag = True; return self
+    def unfold(self, depth):
+        self.unfold_depth = depth; return self
+    def epoch_preserving(self):
+        self.keeps_epoch = True; return self
+    def effect(self, code):
+        self.effects.append(code); return self
     def let(self, name, expr):
         self.let_d.append((name, expr)); return self
     def __call__(self, *a, **k):
@@ -119,7 +131,9 @@ def global_cell(name, ty):
 
 class SpecFn:
     """Pure, total, executable spec function over values; UF + bounded unfolding symbolically."""
-    def __init__(self, fn, types, ret, opaque=False):
+    def __init__(self, fn, types, ret, opaque=False, heap_dep=False, axiom=False):
+        self.heap_dep = heap_dep
+        self.quantified_axiom = axiom     # also give the solver the quantified definition (needed under quantifiers)
         self.fn = fn
         self.name = fn.__name__
         self.types = types
@@ -135,9 +149,9 @@ class SpecFn:
         return self.fn(*a)
 
 
-def specfn(types, ret, opaque=False):
+def specfn(types, ret, opaque=False, heap_dep=False, axiom=False):
     def deco(f):
-        s = SpecFn(f, types, ret, opaque)
+        s = SpecFn(f, types, ret, opaque, heap_dep, axiom)
         SPECFNS[f.__name__] = s
         return s
     return deco
@@ -166,7 +180,7 @@ def specpred(types=None):
     return deco
 
 
-def lemma(name=None, requires=(), ensures=(), decreases=None, types=None, props=(), gen=None, **kw):
+def lemma(name=None, requires=(), ensures=(), decreases=None, types=None, props=(), gen=None, axiom_for=(), **kw):
     """A ghost client program: a Python function (in /verif/spec) whose body calls real functions
     (through their contracts) and spec functions; `requires(..)` / `ensures(..)` given via the contract object."""
     def deco(f):
@@ -180,6 +194,7 @@ def lemma(name=None, requires=(), ensures=(), decreases=None, types=None, props=
         if types: c.types_d.update(types)
         c.props.update(props)
         c.gen = gen
+        c.axiom_for = tuple(axiom_for)   # once proved, forall params. requires -> ensures is given to VCs mentioning these spec functions
         LEMMAS[nm] = c
         REG['lemma.' + nm] = c
         return c
